@@ -34,7 +34,8 @@ Inductive case :=
 (* robustness observations that must all be true: no panic, terminated, errors inside the
    input, tree-or-errors, Run rejects, global object unchanged, ... *)
 | CRobust (flags : list bool)
-(* for (x = <chain>; ;) ; with the chain abstracted to its operator classes (Model.noin_m) *)
+(* for (x = <chain>; ;) ; with the chain abstracted to its operator classes (Model.noin_m);
+   class 18 (`in` admitted in the right operand of a relational operator) is repaired: model = spec *)
 | CNoIn (ops : list Z) (accepted : bool).
 
 Definition oz_eqb := option_eqb Z.eqb.
